@@ -267,7 +267,12 @@ def directed_search(ctx, d, label):
         if m['decl'] == d['name'] and m.get('field') == f['name'] and KIND_OF_OP.get(m.get('op')) == kind \
                 and 'specification' in m['what']:
             return m
-    # 2. directed / exhaustive inputs for this accessor
+    # 2. directed / exhaustive inputs for this accessor (the outcome is cached per workspace: several checks ask for it)
+    cdir = ctx.ws.path('searchcache')
+    os.makedirs(cdir, exist_ok=True)
+    cfile = os.path.join(cdir, hashlib.sha256(('%s|%s' % (d['name'], label)).encode()).hexdigest()[:16] + '.json')
+    if os.path.exists(cfile):
+        return json.load(open(cfile))['witness']
     rng = random.Random('search|%s|%s|%s' % (ctx.seed, d['name'], label))
     sc = cases.gen_field_cases(d, f, kind, ctx.by_name, rng)
     if not sc:
@@ -277,10 +282,13 @@ def directed_search(ctx, d, label):
         res = P.behaviour_compare(ctx.ws, [d], {d['name']: sc}, ctx.by_name, ctx.xl, 'search', max_mism=1)
     finally:
         ctx.ws.unlock()
+    w = None
     for m in res['mismatches']:
         if 'specification' in m.get('what', ''):
-            return m
-    return None
+            w = m
+            break
+    json.dump({'witness': w}, open(cfile, 'w'))
+    return w
 
 
 def check_property(pid, tier, seed):
